@@ -73,10 +73,11 @@ A_REPS = ('histogram restricted to 13 representative positions (3 letters shared
           'each count symbolic in 0..4095 (quick) / 0..1e6 (thorough); the other 115 entries are 0')
 SOLVER_C13 = ['--sat-solver', 'cadical']
 A_REPS6 = ('histogram restricted to 6 representative positions, one or two per class of the two letter models (A and U: in both models; D, y: protein-only; B: letter in neither model; -: non-letter); '
-           'each count symbolic in 0..4095; the other 122 entries are 0')
+           'each count symbolic in 0..255 (quick) / 0..4095 (thorough); the other 122 entries are 0')
 for pm in (1, 2):
     Q(id='C13.detect_alphabet.premise%d' % pm, props=['C13'] + (['C14', 'C04'] if pm == 1 else []), cls='B', harness='c13_detect_alphabet.c', entry='h_c13_detect',
-      mode='wrap', unwind=130, timeout=1500, defs=['-DKV_PREMISE=%d' % pm, '-DKV_MAXCOUNT=4095', '-DKV_C13_REPS6'], funcs=['detect_alphabet'],
+      mode='wrap', unwind=130, timeout=1500, defs=['-DKV_PREMISE=%d' % pm, '-DKV_C13_REPS6'], funcs=['detect_alphabet'],
+      shapes=(lambda tier: [dict(name='counts255', defs=dict(KV_MAXCOUNT=255))] if tier == 'quick' else [dict(name='counts4095', defs=dict(KV_MAXCOUNT=4095))]),
       solver=SOLVER_C13,
       trusted=[TRUST_MSG], assumptions=[A_LOG, A_REPS6, A_FLOAT, A_WRAP], native_srcs=['lib/src/tldevel.c', 'lib/src/msa_alloc.c', 'lib/src/alphabet.c'])
     # (a 13-representative variant of this query did not finish in 40 min and is not registered)
@@ -612,10 +613,9 @@ def _profile_shapes(tier):
                         defs=dict(KV_KA=ka, KV_KB=kb, KV_ROWS=r, KV_LB=lb, KV_SB=sb, KV_EB=eb, KV_PSET=ps, KV_IN=ins)))
     if tier == 'quick':
         # ~100 s each: one rectangle per start/end-of-b case for the seq-profile kernel, two for profile-profile
-        for sb, eb, ins in ((0, 2, 0), (1, 2, 1), (0, 1, 2)):
+        for sb, eb, ins in ((0, 2, 0), (1, 2, 1)):
             add(2, 1, 2, 2, sb, eb, 0, ins)
-        add(2, 2, 2, 2, 0, 2, 0, 0)
-        add(2, 2, 2, 2, 1, 2, 2, 2)
+        add(2, 2, 2, 2, 0, 2, 2, 2)
         return out
     for ka, kb in [(2, 1), (3, 1), (2, 2)]:
         for r in (1, 2):
@@ -630,7 +630,7 @@ def _profile_shapes(tier):
     return out
 def _profile_mirror_shapes(tier):
     sh = _profile_shapes(tier)
-    return sh[:2] + sh[3:4] if tier == 'quick' else sh
+    return sh[1:2] if tier == 'quick' else sh
 Q(id='C07.profiles.fwd_groups', props=['C07', 'C08'], cls='B', harness='c07_profiles.c', entry='h_c07_profiles', shapes=_profile_shapes,
   mode='wrap', unwind=8, timeout=900, funcs=['aln_seqprofile_foward', 'aln_profileprofile_foward', 'make_profile_n', 'update_n', 'set_gap_penalties_n'],
   srcs=['lib/src/aln_mem.c'], native_srcs=['lib/src/tldevel.c', 'lib/src/aln_mem.c'], trusted=[TRUST_MSG],
@@ -661,8 +661,11 @@ A_MEET = 'bounded: blocks of 1-2 (thorough 3) columns, every start/end-of-b case
 Q(id='C07.seqseq.meetup', props=['C07'], cls='B', harness='c07_seqseq.c', entry='h_c07_meetup', shapes=_meetup_shapes, defs=['-DKV_ENTRY_MEETUP'],
   mode='wrap', unwind=8, timeout=900, funcs=['aln_seqseq_meetup'], trusted=[TRUST_MSG, 'fabsf: CBMC library model'],
   assumptions=[A_FLOAT, A_WRAP, A_MEET], native_srcs=['lib/src/tldevel.c'])
+def _meetup_shapes_prof(tier):
+    sh = _meetup_shapes(tier)
+    return sh[:2] if tier == 'quick' else sh
 for _ka, _kb, _nm in ((2, 1, 'seqprofile'), (2, 2, 'profileprofile')):
-    Q(id='C07.%s.meetup' % _nm, props=['C07'], cls='B', harness='c07_profiles.c', entry='h_c07_profiles_meetup', shapes=_meetup_shapes,
+    Q(id='C07.%s.meetup' % _nm, props=['C07'], cls='B', harness='c07_profiles.c', entry='h_c07_profiles_meetup', shapes=_meetup_shapes_prof,
       defs=['-DKV_ENTRY_MEETUP', '-DKV_KA=%d' % _ka, '-DKV_KB=%d' % _kb],
       mode='wrap', unwind=8, timeout=900, funcs=['aln_%s_meetup' % _nm, 'make_profile_n', 'update_n', 'set_gap_penalties_n'],
       srcs=['lib/src/aln_mem.c'], native_srcs=['lib/src/tldevel.c', 'lib/src/aln_mem.c'], trusted=[TRUST_MSG, 'fabsf: CBMC library model'],
